@@ -401,11 +401,45 @@ class ManifestRecursiveLoader:
         (more specific) will always be returned before the Manifests
         for parent directories. The order is otherwise undefined.
         """
-        return sorted(
-                self._iter_unordered_manifests_for_path(
-                    path, recursive=recursive),
-                key=lambda kdv: len(kdv[1]),
-                reverse=True)
+        manifests = list(self._iter_unordered_manifests_for_path(
+            path, recursive=recursive))
+        dirs = frozenset(kdv[1] for kdv in manifests)
+        if len(dirs) == len(manifests):
+            return sorted(manifests,
+                          key=lambda kdv: len(kdv[1]),
+                          reverse=True)
+
+        # multiple Manifests in one directory: a Manifest referenced
+        # by another Manifest in the same directory is more specific
+        # (and needs to be saved before the Manifest referencing it)
+        levels = self._get_manifest_nesting_levels()
+        return sorted(manifests,
+                      key=lambda kdv: (len(kdv[1]),
+                                       levels.get(kdv[0], 0)),
+                      reverse=True)
+
+    def _get_manifest_nesting_levels(self):
+        """
+        Return a dict mapping paths of Manifests reachable from
+        the top-level Manifest (via MANIFEST entries of loaded
+        Manifests) to the number of references leading to them.
+        """
+        levels = {self.top_level_manifest_filename: 0}
+        queue = [self.top_level_manifest_filename]
+        while queue:
+            mpath = queue.pop()
+            m = self.loaded_manifests.get(mpath)
+            if m is None:
+                continue
+            mdir = os.path.dirname(mpath)
+            for e in m.entries:
+                if e.tag != 'MANIFEST':
+                    continue
+                cpath = os.path.join(mdir, e.path)
+                if cpath not in levels:
+                    levels[cpath] = levels[mpath] + 1
+                    queue.append(cpath)
+        return levels
 
     def load_manifests_for_path(self, path, recursive=False, verify=True):
         """
